@@ -261,6 +261,10 @@ def accumulator(chk, fn, rule='C19-R3'):
     # output type, every other pairing is added in the promoted type and converted on the store -- as numpy.cumsum(arr, out=out) does.
     dt = [n for n in walk_no_nested(fn) if isinstance(n, ast.Assign) and len(n.targets) == 1 and unparse(n.targets[0]) == 'dtype']
     okdt = len(dt) == 1 and unparse(dt[0].value) in ('out.dtype.type',)
+    if not dt:
+        # no local alias of the output type: fine when the scalar handed to the add helper is built from out.dtype directly
+        okdt = all(any(isinstance(n_, ast.Assign) and len(n_.targets) == 1 and unparse(n_.targets[0]) == unparse(a_.via[1]) and unparse(n_.value) == 'out.dtype.type(0)'
+                       for n_ in walk_no_nested(fn)) or unparse(a_.via[1]) == 'out.dtype.type(0)' for a_ in adds if a_.via is not None) and any(a_.via is not None for a_ in adds)
     plain = [a for a in adds if a.via is None and not a.cast]
     castall = [a for a in adds if a.via is None and a.cast]
     via = [a for a in adds if a.via is not None]
@@ -361,10 +365,11 @@ def _typed_start_helper(src, name, like_arg, caller):
     """`name(offset, like)`: overload returning `offset` itself for (offset float, like integer) and `T(offset)` (T = type of like) otherwise."""
     mod = src.tree(UTIL)
     la = unparse(like_arg)
-    if la != 'dtype(0)':
+    array_form = la == 'out'                   # the output array itself: the overload reads its element type as out.dtype
+    if la != 'dtype(0)' and not array_form:
         ds = [n for n in walk_no_nested(caller) if isinstance(n, ast.Assign) and len(n.targets) == 1 and unparse(n.targets[0]) == la]
         if not (len(ds) == 1 and unparse(ds[0].value) in ('dtype(0)', 'out.dtype.type(0)')):
-            return False, f'second argument {la} of {name} is not a scalar of the output type'
+            return False, f'second argument {la} of {name} is not a scalar of the output type (or the output array)'
     ovs = [n for n in mod.body if isinstance(n, ast.FunctionDef) and any(isinstance(d, ast.Call) and dotted(d.func).split('.')[-1] == 'overload' and d.args
                                                                          and unparse(d.args[0]) == name for d in n.decorator_list)]
     if len(ovs) != 1:
@@ -376,7 +381,7 @@ def _typed_start_helper(src, name, like_arg, caller):
     for ok_ in ('Integer', 'Boolean', 'Float'):
         for lk in ('Integer', 'Float'):
             try:
-                clo = _Dispatch(mod, {ps[0]: ok_, ps[1]: lk}, ps + ['<none>']).call(ov, [_TypeOf(p) for p in ps])
+                clo = _Dispatch(mod, {ps[0]: ok_, ps[1]: lk}, ps + ['<none>'], array_params=[ps[1]] if array_form else ()).call(ov, [_TypeOf(p) for p in ps])
             except _NoEval as e:
                 return False, f'overload of {name} cannot be evaluated for offset:{ok_}, like:{lk}: {e}'
             if not isinstance(clo, _Closure):
@@ -395,9 +400,9 @@ class _NoEval(Exception):
 
 
 class _TypeOf:
-    """The numba type object bound to a parameter of the overload."""
-    def __init__(self, param):
-        self.param = param
+    """The numba type object bound to a parameter of the overload (via_dtype: the element type `.dtype` of an array parameter)."""
+    def __init__(self, param, via_dtype=False):
+        self.param, self.via_dtype = param, via_dtype
 
 
 class _Closure:
@@ -464,8 +469,9 @@ class _Dispatch:
     the parameters against numba type classes, nested implementation functions, module-level factories."""
     KNOWN = {'Integer': {'Integer'}, 'Boolean': {'Boolean'}, 'Float': {'Float'}}
 
-    def __init__(self, mod, kinds, ovparams):
+    def __init__(self, mod, kinds, ovparams, array_params=()):
         self.mod, self.kinds, self.ovparams = mod, kinds, ovparams
+        self.array_params = set(array_params)      # parameters that are arrays: their kind is that of `.dtype`, the array type itself is no scalar class
         self.mfuncs = {n.name: n for n in mod.body if isinstance(n, ast.FunctionDef)}
         self.depth = 0
 
@@ -506,6 +512,9 @@ class _Dispatch:
             raise _NoEval(f'statement {unparse(n)[:60]}')
         return None
 
+    def _lazy(self, x, env):
+        return self.ev(x, env)
+
     def ev(self, e, env):
         if isinstance(e, ast.Constant) and isinstance(e.value, bool):
             return e.value
@@ -528,6 +537,26 @@ class _Dispatch:
             if not all(isinstance(v, bool) for v in vs):
                 raise _NoEval(unparse(e)[:60])
             return all(vs) if isinstance(e.op, ast.And) else any(vs)
+        if isinstance(e, ast.Attribute) and e.attr == 'dtype':
+            v = self.ev(e.value, env)
+            if isinstance(v, _TypeOf) and v.param in self.array_params and not v.via_dtype:
+                return _TypeOf(v.param, via_dtype=True)
+            raise _NoEval(unparse(e)[:60])
+        if isinstance(e, (ast.Tuple, ast.List)):
+            return tuple(self._lazy(x, env) for x in e.elts)
+        if isinstance(e, ast.Attribute) and (dotted(e) or '').split('.')[-1] in self.KNOWN:
+            return ('typeclass', dotted(e).split('.')[-1])
+        if isinstance(e, ast.Call) and isinstance(e.func, ast.Name) and e.func.id in ('all', 'any') and len(e.args) == 1 and not e.keywords \
+                and isinstance(e.args[0], (ast.GeneratorExp, ast.ListComp)) and len(e.args[0].generators) == 1 and not e.args[0].generators[0].ifs \
+                and isinstance(e.args[0].generators[0].target, ast.Name):
+            g = e.args[0]
+            it = self.ev(g.generators[0].iter, env)
+            if not isinstance(it, tuple):
+                raise _NoEval(unparse(e)[:60])
+            vals = [self.ev(g.elt, dict(env, **{g.generators[0].target.id: v})) for v in it]
+            if not all(isinstance(v, bool) for v in vals):
+                raise _NoEval(unparse(e)[:60])
+            return all(vals) if e.func.id == 'all' else any(vals)
         if isinstance(e, ast.IfExp):
             t = self.ev(e.test, env)
             if not isinstance(t, bool):
@@ -537,14 +566,17 @@ class _Dispatch:
             v = self.ev(e.args[0], env)
             if not isinstance(v, _TypeOf) or v.param not in self.kinds:
                 raise _NoEval(f'isinstance of {unparse(e.args[0])[:40]}')
-            classes = e.args[1].elts if isinstance(e.args[1], ast.Tuple) else [e.args[1]]
+            if v.param in self.array_params and not v.via_dtype:
+                self.ev(e.args[1], env)
+                return False             # an array type is none of Integer / Boolean / Float
+            cl = self.ev(e.args[1], env)
+            classes = cl if isinstance(cl, tuple) and not (len(cl) == 2 and cl[0] == 'typeclass') else (cl,)
             kind = self.kinds[v.param]
             res = False
             for c in classes:
-                cn = dotted(c).split('.')[-1] if dotted(c) else None
-                if cn not in self.KNOWN:
-                    raise _NoEval(f'type class {unparse(c)[:40]}')
-                res = res or cn == kind
+                if not (isinstance(c, tuple) and len(c) == 2 and c[0] == 'typeclass'):
+                    raise _NoEval(f'type class {unparse(e.args[1])[:40]}')
+                res = res or c[1] == kind
             return res
         if isinstance(e, ast.Call) and isinstance(e.func, ast.Name) and not e.keywords:
             f = self.ev(e.func, env)
